@@ -41,6 +41,18 @@ Definition texts_ok (texts : list (N * tobs)) : bool :=
                          | TErr _ => false
                          end) texts
   end.
+(* where the pretty printer is known to fail (pp_guard, code_ok) a failure is excused, but every rendering it does
+   produce must still read and evaluate like the plain one *)
+Definition texts_ok_lenient (texts : list (N * tobs)) : bool :=
+  match wide_text texts with
+  | None => true
+  | Some w =>
+      let lw := list_ascii_of_string w in
+      forallb (fun mt => match snd mt with
+                         | TText t _ es => es && same_reading lw (list_ascii_of_string t)
+                         | TErr _ => true
+                         end) texts
+  end.
 Definition pp_guard (texts : list (N * tobs)) : bool :=
   match wide_text texts with Some w => negb (far_quote_text (list_ascii_of_string w)) | None => true end.
 
@@ -73,7 +85,8 @@ Fixpoint code_ok (top : bool) (f : obj) : bool :=
 (* does the OBSERVED behaviour meet S for this value? *)
 Definition obs_meets_spec (v : obj) (r : robs) (equal : bool) (texts : list (N * tobs)) : bool :=
   match r with
-  | ROk y => obj_eqb v y && (equal || has_lambda v) && (texts_ok texts || negb (pp_guard texts))
+  | ROk y => obj_eqb v y && (equal || has_lambda v)
+             && (if pp_guard texts && code_ok false v then texts_ok texts else texts_ok_lenient texts)
   | _ => false
   end.
 
@@ -142,7 +155,7 @@ Definition check_case (c : case) : N :=
       check_session hist wildtext snapfail snap1 loadok snap2 textsame probesame
   | DCase v FNone _ _ _ => 0%N      (* nil offers no LoadForm method *)
   | DCase v form r equal texts =>
-      let g := loadable v && code_ok false v in
+      let g := loadable v in
       if model_agrees v form r then
         if g then
           match reload v with
@@ -165,7 +178,7 @@ Definition far_quote_count (cs : list case) : N :=
 Definition guarded (c : case) : bool :=
   match c with
   | DCase v FNone _ _ _ => false
-  | DCase v _ _ _ _ => loadable v && code_ok false v
+  | DCase v _ _ _ _ => loadable v
   | SCase hist wildtext _ _ _ _ _ _ =>
       negb wildtext && match run empty_session hist with
                        | Ok s => sess_ok s && docs_ok s && forallb (fun kv => forallb (code_ok false) (f_body (snd kv))) (s_funs s)
